@@ -202,10 +202,6 @@ func runGated(c J, bodies [][]byte, ow *obsWriter) {
 
 func runFree(c J, bodies [][]byte, ow *obsWriter) {
 	n := len(bodies)
-	solo := make([]string, n)
-	for i, b := range bodies {
-		solo[i] = soloDigest(b)
-	}
 	workers := 16
 	if w, ok := c["workers"].(float64); ok {
 		workers = int(w)
@@ -214,31 +210,48 @@ func runFree(c J, bodies [][]byte, ow *obsWriter) {
 	if w, ok := c["iterations"].(float64); ok {
 		iters = int(w)
 	}
+	// The concurrent phase comes FIRST, on a cold process: lazily filled caches and prototypes are hit by several
+	// goroutines at once.  The solo reference of every request is taken afterwards, sequentially.
 	var mu sync.Mutex
-	mismatch := 0
+	seen := make([]map[string]int, n)
+	for i := range seen {
+		seen[i] = map[string]int{}
+	}
 	total := 0
-	firstBad := -1
 	var wg sync.WaitGroup
 	for w := 0; w < workers; w++ {
 		wg.Add(1)
 		go func(w int) {
 			defer wg.Done()
 			for it := 0; it < iters; it++ {
-				k := (w + it) % n
+				// even workers walk the pool in step (identical requests run simultaneously, cold at their first
+				// use), odd workers are spread over it
+				k := it % n
+				if w%2 == 1 {
+					k = (w*7 + it) % n
+				}
 				d := soloDigest(bodies[k])
 				mu.Lock()
 				total++
-				if d != solo[k] {
-					mismatch++
-					if firstBad < 0 {
-						firstBad = k
-					}
-				}
+				seen[k][d]++
 				mu.Unlock()
 			}
 		}(w)
 	}
 	wg.Wait()
+	mismatch := 0
+	firstBad := -1
+	for k, b := range bodies {
+		solo := soloDigest(b)
+		for d, cnt := range seen[k] {
+			if d != solo {
+				mismatch += cnt
+				if firstBad < 0 {
+					firstBad = k
+				}
+			}
+		}
+	}
 	st, _ := getFunctions()
 	ow.emit(J{"case": c, "total": total, "mismatch": mismatch, "firstBad": firstBad, "fnStatus": st})
 }
